@@ -15,7 +15,7 @@ from typing import Any, Callable, Dict, List, Optional, Tuple
 
 import numpy as np
 
-from . import core, gen, snapshot as snap
+from . import attach, core, gen, snapshot as snap
 from .world import World, is_hist
 
 DTYPES = ["int16", "int32", "int64", "float16", "float32", "float64"]
@@ -56,8 +56,18 @@ class History:
         rng = self.rng
         kind = rng.choice(["1d_static", "1d_static", "1d_adaptive", "1d_adaptive", "2d_static", "2d_adaptive", "3d_static", "1d_gapped", "1d_fixed", "2d_fixed", "1d_huge"])
         n = rng.randint(0, 25)
+        if rng.random() < 0.12:
+            # "the same bins as that one": the facade is given the binning of a histogram that lives on
+            src = self.pick(lambda o: o.ndim == 1 and type(o).__name__ == "Histogram1D" and o.shape[0] > 0)
+            if src is not None:
+                kind = "1d_like"
         try:
-            if kind == "1d_huge":
+            if kind == "1d_like":
+                data = self.values_for(src, n)[:, 0]
+                with warnings.catch_warnings():
+                    warnings.simplefilter("ignore")
+                    h = physt.h1(data, src.binning)
+            elif kind == "1d_huge":
                 # bins wide enough for values whose square is not a finite double: statistics may give up (NaN), operations may not
                 e = [-1e200, -1.0, 0.0, 2.5, 1e200]
                 data = gen.data_for_bins(rng, gen.pairs_from_edges(e), n, nan_ok=False)
@@ -96,7 +106,8 @@ class History:
                 # fixed-width bins that are not adaptive (yet): set_adaptive(True) may come later in the history
                 w = rng.choice([0.5, 1.0, 2.5])
                 data = [rng.uniform(-5, 5) for _ in range(max(n, 1))]
-                h = physt.h1(np.asarray(data), "fixed_width", bin_width=w)
+                # (right-closed fixed-width bins cannot become adaptive: the switch is refused, or the histogram stays usable)
+                h = physt.h1(np.asarray(data), "fixed_width", bin_width=w, **({"includes_right_edge": True} if rng.random() < 0.3 else {}))
             elif kind == "2d_fixed":
                 w = [rng.choice([0.5, 1.0, 2.5]) for _ in range(2)]
                 rows = np.array([[rng.uniform(-4, 4), rng.uniform(-4, 4)] for _ in range(max(n, 1))])
@@ -117,6 +128,11 @@ class History:
         except Exception as e:
             self.note(f"create {kind} raised {type(e).__name__}")
             return None
+        if rng.random() < 0.3:
+            # mutable metadata values from the start (a list of cuts, a nested dict as parsed from JSON)
+            with attach.quiet():
+                # (also under a key that is the name of a constructor argument: such entries travel on a path of their own)
+                h.meta_data[rng.choice(["cuts", "cuts", "missed"])] = [1, 2] if rng.random() < 0.5 else {"a": [1]}
         self.add(h)
         self.note(f"create {kind} -> {type(h).__name__}{h.shape}:{h.dtype}")
         return h
@@ -150,7 +166,9 @@ class History:
         h = self.pick()
         if h is None:
             return
-        ops = ["copy", "copy0", "mul", "rmul", "div", "normalize", "merge", "add", "add_copy", "json", "getitem", "sub", "sum_of_one"]
+        ops = ["copy", "copy0", "mul", "rmul", "div", "normalize", "merge", "add", "add_copy", "json", "getitem", "sub", "sum_of_one", "dict"]
+        if type(h).__name__ == "Histogram1D" and hasattr(h, "to_xarray"):
+            ops += ["xarray"]
         if h.ndim >= 2:
             ops += ["projection", "projection", "select_int", "select_slice", "accumulate"]
         if type(h).__name__ == "Histogram2D":
@@ -194,6 +212,15 @@ class History:
                 import physt.io
 
                 r = physt.io.parse_json(h.to_json())
+            elif op == "dict":
+                # the tree of plain python objects that the JSON writer / reader is built on
+                import physt.io
+
+                r = type(h).from_dict(h.to_dict()) if rng.random() < 0.5 else physt.io.create_from_dict(h.to_dict(), "JSON", check_version=False)
+            elif op == "xarray":
+                with warnings.catch_warnings():
+                    warnings.simplefilter("ignore")
+                    r = type(h).from_xarray(h.to_xarray())
             elif op == "getitem":
                 if h.ndim == 1:
                     n = h.shape[0]
@@ -269,6 +296,14 @@ class History:
                     self.stats["grow"] += 1
             elif op == "set_adaptive":
                 h.set_adaptive(True)  # from now on fills may grow the bins of this object (and of nothing else)
+                try:
+                    with attach.quiet():
+                        h.copy()
+                except Exception as e_:
+                    self.ctx.rec.fail(prop="C18", monitor="C18.world.wellformed", op="set_adaptive", symptom="an accepted set_adaptive(True) left a histogram that cannot even be copied",
+                                      diff=["unusable"], detail={"error": f"{type(e_).__name__}: {e_}"[:140], "class": type(h).__name__,
+                                                                 "right_closed": [bool(b.includes_right_edge) for b in h.binnings]})
+                    raise
                 v = self.values_for(h, 2, grow=True)
                 h.fill_n(v[:, 0] if h.ndim == 1 else v)
                 self.stats["grow"] += 1
@@ -347,6 +382,8 @@ class History:
                     # a mutable metadata value (a list of cuts, a dict as parsed from JSON), later edited in place
                     def edit_mutable():
                         cur = h.meta_data.get("cuts")
+                        if not isinstance(cur, (list, dict)):
+                            cur = h.meta_data.get("missed", cur)
                         if isinstance(cur, list):
                             cur.append(rng.randint(0, 99))
                         elif isinstance(cur, dict):
@@ -403,11 +440,14 @@ class History:
                  "mul_array", "rdiv", "array_after_free_block", "idiv_zero", "normalize_empty_inplace", "fill_weight_square_overflow", "isub_more_in_bins_only"]
         if h.ndim >= 2:
             kinds += ["projection_bad", "select_bad", "fill_wrong_dim"]
+            if h.is_adaptive() and all(len(np.asarray(b)) > 0 for b in h.bins):
+                kinds += ["iadd_adaptive_other_width_last_axis"] * 3
         else:
             kinds += ["getitem_bad", "merge_gap"]
         k = rng.choice(kinds)
         must = True
         self.stats["faults"] += 1
+        self.stats["fault/" + k] = self.stats.get("fault/" + k, 0) + 1
         raised = None
         try:
             with warnings.catch_warnings():
@@ -423,6 +463,16 @@ class History:
                         o = physt.h1([0.0], np.linspace(bins[0][0, 0] - 3.3, bins[0][0, 0] + 0.77, len(bins[0]) + 2))
                     else:
                         o = physt.h(np.zeros((1, h.ndim)), [np.linspace(-7.7, 1.234, len(b) + 2) for b in bins])
+                    h += o
+                elif k == "iadd_adaptive_other_width_last_axis":
+                    # an adaptive addend on the same grid along the first axes (elsewhere on it), of another bin width along the last one:
+                    # refused as a whole - no axis of the target may have grown by then
+                    bins = [np.asarray(b) for b in h.bins]
+                    if float(h.missed) > 0:
+                        must = False
+                    widths = [float(b[0, 1] - b[0, 0]) for b in bins]
+                    row = [float(b[-1, 1] + 3.5 * w_) for b, w_ in zip(bins, widths)]
+                    o = physt.h(np.array([row]), "fixed_width", bin_width=widths[:-1] + [widths[-1] * 0.7], adaptive=True)
                     h += o
                 elif k == "iadd_other_dim":
                     o = physt.h(np.zeros((1, h.ndim + 1)), [np.array([-1.0, 0.5, 1.0])] * (h.ndim + 1)) if h.ndim < 3 else physt.h1([0.0], np.array([-1.0, 1.0]))
